@@ -62,6 +62,12 @@ EditSet ==
 Preserving == {"identical", "documented", "skipped_extra"}
 
 Verdict(a, b) == IF Interface(a) = Interface(b) THEN "Valid" ELSE "Invalid"
+(* how the compared root type reaches the edited trait: it IS an object of that trait, or one of its methods returns    *)
+(* an object of that trait (`#[wrap_with_obj(T)] type Ret; fn get(&self) -> Self::Ret`: the plugin-root shape).  The    *)
+(* C-visible interface of the root includes the interface of every object type in its signatures, so the verdict is the *)
+(* same.                                                                                                                *)
+Reach == {"direct", "via_return"}
+VerdictVia(r, a, b) == Verdict(a, b)
 
 (* groups: set of mandatory and optional traits (name order is canonical, listing order is not C-visible); the   *)
 (* interface of a group includes the interface of every member trait: `tweak` names the members whose method     *)
@@ -100,6 +106,7 @@ Init == done = FALSE
 Next == UNCHANGED done
 Emit == PrintT(<<"REPLAY", ToJson([
    traits |-> {[name |-> e.name, def |-> e.def, expect |-> Verdict(Base, e.def)] : e \in EditSet},
+   reach  |-> Reach,
    groups |-> {[name |-> e, def |-> GEdits[e], expect |-> GVerdict(GBase, GEdits[e])] : e \in DOMAIN GEdits},
    ands   |-> {[a |-> v, b |-> w, r |-> And(v, w)] : v \in Vs, w \in Vs},
    preds  |-> {[v |-> v, strict |-> Strict(v), relaxed |-> Relaxed(v)] : v \in Vs}])>>)
